@@ -1,7 +1,108 @@
-import Driver.Util
-open Lean
+import Driver.ProgJson
+import Heph.Model.Closed
+import Heph.Model.Reserved
+import Heph.Model.Assignable
+/-! Ops of property C05.
+
+* `closed.check`  `{<program export>, "keywords": [..], "stats": bool}` →
+  `{"r": "ok"}` | `{"r": {"path":…, "reason":…}}` (+ `"kinds": {kind: count}` when `stats`)
+* `closed.pool`   `{"initial": [..], "ops": [op…]}` → `{"r": [answer…], "words": [..], "initial": [..]}` where op is
+    `["word", choice]`            → the word | `"KeyError"` (choice not in the pool: never on a real run);
+                                    `["word", null]` → `"IndexError"` iff the pool is empty (`r.choice(())`), else `"bad-request"`
+    `["reset"]`                   → `null`
+    `["remove_reserved", [kw…], fixed?]`  → `null` (`fixed` absent: the variant `Pool.codeIsFixed` names)
+    `["gen_identifier", mode, choice]` (mode `null | "lower" | "capitalize"`) → identifier | `"KeyError"`
+    `["caps", [sample…], [blacklist…]]` → the accepted sample | `null`
+* `closed.variant` `{}` → `"fixed"` | `"asIs"` (`Pool.codeIsFixed`)
+* `closed.collisions` `{"fixed": bool}` → `[[language, word, identifier]…]` (`Pool.reservedCollisions` on the regenerated tables)
+* `closed.assignable` `{"insideJavaLambda": bool, "vars": [{"name", "isFinal": bool|null, "searched": bool,
+     "fields": [[name, isFinal]…]|null}…]}` → `[[receiver|null, name, isFinal]…]` | `"TypeError"`
+-/
+open Lean Heph Heph.Scope
 namespace Driver.Closed
 
-def handle : Handler := fun _ _ => none
+def strList (j : Json) : Except String (List String) := do
+  (← j.getArr?).toList.mapM fun x => x.getStr?
+
+def poolStep (p : Pool.Pool) (op : Json) : Except String (Json × Pool.Pool) := do
+  let a ← op.getArr?
+  let tag ← (a[0]?.getD Json.null).getStr?
+  match tag with
+  | "word" =>
+    match a[1]?.getD Json.null with
+    | .null => pure (Json.str (if p.words.isEmpty then "IndexError" else "bad-request"), p)
+    | cj =>
+      let c ← cj.getStr?
+      match p.word c with
+      | some (w, p') => pure (Json.str w, p')
+      | none => pure (Json.str "KeyError", p)
+  | "reset" => pure (Json.null, p.reset)
+  | "remove_reserved" =>
+    let kw ← strList (a[1]?.getD Json.null)
+    match a[2]?.getD Json.null with
+    | .bool b => pure (Json.null, p.removeReservedWordsV b kw)
+    | _ => pure (Json.null, p.removeReservedWords kw)
+  | "gen_identifier" =>
+    let mode ← match a[1]?.getD Json.null with
+      | .null => pure Pool.Mode.plain
+      | .str "lower" => pure Pool.Mode.lower
+      | .str "capitalize" => pure Pool.Mode.capitalize
+      | _ => throw "bad mode"
+    let c ← (a[2]?.getD Json.null).getStr?
+    match p.word c with
+    | some (w, p') => pure (Json.str (Pool.genIdentifier mode w), p')
+    | none => pure (Json.str "KeyError", p)
+  | "caps" =>
+    let samples ← strList (a[1]?.getD Json.null)
+    let bl ← strList (a[2]?.getD Json.null)
+    match Pool.caps samples bl with
+    | some s => pure (Json.str s, p)
+    | none => pure (Json.null, p)
+  | other => throw s!"unknown pool op {other}"
+
+def handle : Handler := fun op j =>
+  match op with
+  | "closed.check" => some (do
+      let (_, p) ← parseProgramObj j
+      let kw ← strList (← j.getObjVal? "keywords")
+      let r := match closedCheck p kw with
+        | .ok => Json.str "ok"
+        | .error path reason => Json.mkObj [("path", Json.str path), ("reason", Json.str reason)]
+      let stats := (j.getObjValD "stats") == Json.bool true
+      if stats then
+        let kinds := Json.mkObj ((countKinds p).map fun (k, n) => (k, Json.num (JsonNumber.fromNat n)))
+        pure (Json.mkObj [("r", r), ("kinds", kinds)])
+      else pure (res r))
+  | "closed.pool" => some (do
+      let init ← strList (← j.getObjVal? "initial")
+      let ops ← getArr j "ops"
+      let mut p : Pool.Pool := { initial := init, words := init }
+      let mut out : Array Json := #[]
+      for o in ops do
+        let (a, p') ← poolStep p o
+        out := out.push a
+        p := p'
+      pure (Json.mkObj [("r", Json.arr out), ("words", ofStrList p.words), ("initial", ofStrList p.initial)]))
+  | "closed.variant" => some (pure (res (Json.str (if Pool.codeIsFixed then "fixed" else "asIs"))))
+  | "closed.collisions" => some (do
+      let b := (j.getObjValD "fixed") == Json.bool true
+      pure (res (Json.arr ((Pool.reservedCollisions b).toArray.map fun (l, w, i) =>
+        Json.arr #[Json.str l, Json.str w, Json.str i]))))
+  | "closed.assignable" => some (do
+      let jl ← getBool j "insideJavaLambda"
+      let vs ← (← getArr j "vars").toList.mapM fun v => do
+        let isFinal := match v.getObjValD "isFinal" with | .bool b => some b | _ => none
+        let fj := v.getObjValD "fields"
+        let fields ← if fj.isNull then pure none else do
+          let fs ← (← fj.getArr?).toList.mapM fun f => do
+            let fa ← f.getArr?
+            pure ((← (fa[0]?.getD Json.null).getStr?), (fa[1]?.getD Json.null) == Json.bool true)
+          pure (some fs)
+        pure ({ name := ← getStr v "name", isFinal := isFinal, searched := ← getBool v "searched", fields := fields } : Assignable.VarInfo)
+      match Assignable.assignableVars jl vs with
+      | none => pure (res (Json.str "TypeError"))
+      | some cs => pure (res (Json.arr (cs.toArray.map fun c =>
+          Json.arr #[(match c.recv with | some r => Json.str r | none => Json.null), Json.str c.name, Json.bool c.isFinal]))))
+  | _ => none
 
 end Driver.Closed
